@@ -247,6 +247,23 @@ fn exec(c: &Value) -> R {
                 let cnt = small(c, "count") as usize;
                 okerr(v.verifier_shares_to_message(b"c16", &(), (0..cnt).map(|k| vs[k.min(1)].clone())))
             }
+            "poplar1_unshard" | "poplar1_aggregate" => {
+                // aggregate shares shaped by one aggregation parameter offered under another (all of them alike)
+                let v = Poplar1::new_turboshake128(3);
+                let mkap = |leaf: bool, n: usize| -> Poplar1AggregationParam {
+                    let level = if leaf { 2 } else { 1 };
+                    let ps: Vec<IdpfInput> = (0..n).map(|k| IdpfInput::from_bools(&(0..=level).map(|i| (k >> (level - i)) & 1 == 1).collect::<Vec<_>>())).collect();
+                    Poplar1AggregationParam::try_from_prefixes(ps).unwrap()
+                };
+                let ap = mkap(c["pleaf"].as_bool().unwrap(), small(c, "pn") as usize);
+                let shape = mkap(c["sleaf"].as_bool().unwrap(), small(c, "sn") as usize);
+                use prio::vdaf::{Aggregator, Collector};
+                if op == "poplar1_unshard" {
+                    okerr(v.unshard(&ap, [v.aggregate_init(&shape), v.aggregate_init(&shape)], 1))
+                } else {
+                    okerr(Aggregator::<32, 16>::aggregate(&v, &ap, [v.aggregate_init(&shape), v.aggregate_init(&shape)]))
+                }
+            }
             "aggparam_new" => {
                 let plen = small(c, "plen") as usize;
                 let mk = |last: [bool; 2]| -> IdpfInput {
